@@ -324,6 +324,7 @@ def run(rep, facts, tier):
 
     # ------------------------------------------------------------ R16.5
     rule_16_5(rep, fx)
+    rule_16_6(rep, fx)
 
 
 def _reads_local(rv, l):
@@ -393,3 +394,43 @@ def rule_16_5(rep, fx):
         rep.check(good, 'R16.5', '%s/key-id-arg#%d' % (cb.key, n), 'key id = %s' % term_str(kid)[:60],
                   '%s passes a key id that is not the received header\'s (%s)' % (cb.key, term_str(kid)[:80]), cb.where(bb))
     rep.floor('R16.5', n, 3, 'call sites handing the header key id to the key-material lookup')
+
+
+def rule_16_6(rep, fx):
+    """Framing must hand the decoder the byte string the encoder produced. DATA framing pads the payload to a 4-byte boundary and the DATA parser returns
+    everything up to the end of the submessage; decode_serialized_payload finds the CryptoFooter by counting back from the end. The three facts together
+    require that what goes into the DATA submessage is already 4-aligned."""
+    rep.rule('R16.6', 'payload framing: Data::write_to pads the payload to 4 bytes and decode_serialized_payload locates the CryptoFooter from the end of what the DATA parser returns, '
+                      'so data_msg must hand encode_serialized_payload a plaintext padded to a 4-byte boundary (header and footer sizes are multiples of 4); otherwise every '
+                      'protected payload whose length is not a multiple of 4 is rejected by the receiver')
+    dw = [b for b in fx.bodies if b.key.startswith('<messages::submessages::data::Data as speedy::Writable') and b.key.endswith('::write_to')]
+    dec = [b for b in fx.bodies if b.key.endswith('::decode_serialized_payload') and 'crypto_transform' in b.key]
+    dm = fx.find('rtps::message::MessageBuilder::data_msg')
+    if len(dw) != 1 or len(dec) != 1:
+        raise CheckBroken('Data::write_to (%d) / decode_serialized_payload (%d) not found' % (len(dw), len(dec)))
+    rep.analysed(dw[0], dec[0], dm)
+    pads = any(callee_res(t).endswith('padding_needed_for_alignment_4') for _bb, t in dw[0].calls())
+    ogd = Origins(dec[0])
+    from_end = False
+    for bb, t in dec[0].calls():
+        if callee_res(t).endswith('split_at') and len(t['args']) == 2:
+            idx = ogd.of_operand(t['args'][1], bb, 'term')
+            if term_has(idx, lambda x: x[0] == 'bin' and x[1].startswith('Sub') and term_has(x[2], lambda y: y[0] == 'call' and y[1].endswith('::len'))
+                        and term_has(x[3], lambda y: y[0] == 'call' and 'serialized_len' in y[1])):
+                from_end = True
+    rep.ok('R16.6', 'facts', 'DATA framing pads: %s; footer located from the end: %s' % (pads, from_end), dw[0].where())
+    n = 0
+    for c in [dm] + fx.closures_of(dm):
+        for bb, t in c.calls():
+            if not callee_res(t).endswith('encode_serialized_payload'):
+                continue
+            n += 1
+            P = Pos(c)
+            aligners = [(ab, 'term') for ab, at in c.calls() if callee_res(at).rsplit('::', 1)[-1] in ('round_up_to_4', 'padding_needed_for_alignment_4')]
+            growers = [(ab, 'term') for ab, at in c.calls() if callee_res(at).rsplit('::', 1)[-1] in ('resize', 'extend', 'extend_from_slice', 'push', 'resize_with')]
+            aligned = bool(aligners) and bool(growers) and P.every_path_passes(None, (bb, 'term'), via_pos=growers, from_entry=True)
+            ok = aligned or not (pads and from_end)
+            rep.check(ok, 'R16.6', 'data_msg/encoded-payload-aligned', 'plaintext padded to 4 before protection' if aligned else 'framing adds nothing / footer not located from the end',
+                      'data_msg protects the serialized payload as it is; DATA framing then appends 1..3 pad bytes after the CryptoFooter and decode_serialized_payload, which takes the '
+                      'last bytes as the footer, fails the MAC check: a protected payload whose length is not a multiple of 4 never reaches the reader', c.where(bb))
+    rep.floor('R16.6', n, 1, 'calls of encode_serialized_payload in data_msg')
